@@ -128,8 +128,8 @@ class C20(C10):
             'all variables, current, _temp and free memory compared with the model after every step; oracle: dict '
             'reference semantics in which a call binds, evaluates and restores. non-trivial = a function call returned')
     TRUSTED = C10.TRUSTED
-    PARTIAL = ('C20_binding (parameter = converted argument of its last occurrence when the body starts) is proved on '
-               'the binding loop; its composition with the argument/save loops of evaluate_call is not one theorem')
+    PARTIAL = ('C20_call (3) - parameters read their converted arguments during the body - assumes as many arguments as '
+               'parameters (a mismatch is a syntax error in the code and not modelled)')
 
     def corpus(self):
         return [dict(w) for w in (W_D15, W_D20A, W_D20B, W_ARGERR, W_RECURSION, W_D10D_ALIAS, W_DUP, W_DEFT, W_ARGGC)] + [
